@@ -10,7 +10,7 @@
 //! B1 payment; B2 multi-asset payment with a native-policy mint (Mary+); B3
 //! spend of two Plutus-locked entries with collateral, redeemers, datum and
 //! script-integrity hash (Alonzo+); B3m = B3 with map-form redeemers (Conway);
-//! B4 = B3 locked by a PlutusV2 script at a slot of the PlutusV2 epochs (Babbage).
+//! B3v2 = B3 locked by a PlutusV2 script at a slot of the PlutusV2 epochs (Babbage).
 
 use crate::txlab::*;
 
@@ -98,12 +98,13 @@ pub fn plutus_v2_addr() -> Addr {
     Addr::script(plutus_hash(2, &plutus_script()))
 }
 
-/// B4: the B3 spend with the inputs locked by a Plutus**V2** script and no V1 script in
-/// the witness set, at a mainnet slot of the PlutusV2 epochs (Babbage only: the Babbage
-/// validator takes languages and language views from network and slot).
-pub fn b4(era: Era) -> Case {
+/// B3v2: the B3 spend with the inputs locked by a Plutus**V2** script and no V1 script in
+/// the witness set, at a mainnet slot of the PlutusV2 epochs (the Babbage validator takes
+/// languages and language views from network and slot; the Conway parameters carry the
+/// PlutusV2 cost model from that slot on, `params::multi_era_at`).
+pub fn b3v2(era: Era) -> Case {
     let mut c = b3(era);
-    c.base = "B4-plutus-v2".into();
+    c.base = "B3v2-plutus-v2".into();
     c.env.slot = 90_000_000;
     c.tx.ttl = Some(c.env.slot + 100);
     for u in c.env.utxo.iter_mut() {
@@ -113,6 +114,20 @@ pub fn b4(era: Era) -> Case {
     }
     c.tx.wits.plutus_v1 = None;
     c.tx.wits.plutus_v2 = Some(vec![plutus_script()]);
+    c
+}
+
+pub const REFSCRIPT: InRef = InRef::new(1, 2);
+
+/// B3ref: the B3v2 spend with the PlutusV2 script supplied by a reference input
+/// (`script_ref` of UTxO entry T1#2) instead of the witness set. Used by C37 only (the
+/// rule model of C38 does not know reference scripts).
+pub fn b3ref(era: Era) -> Case {
+    let mut c = b3v2(era);
+    c.base = "B3ref-plutus-v2-reference-script".into();
+    c.tx.wits.plutus_v2 = None;
+    c.env.utxo.push(Utxo { at: REFSCRIPT, out: Out::new(era, Addr::key(2), 20_000_000).with_script_ref(2, plutus_script()), era: None });
+    c.tx.reference_inputs = Some(vec![REFSCRIPT]);
     c
 }
 
@@ -127,8 +142,8 @@ pub fn bases() -> Vec<Case> {
         if era.plutus() {
             v.push(b3(era));
         }
-        if era == Era::Babbage {
-            v.push(b4(era));
+        if era == Era::Babbage || era == Era::Conway {
+            v.push(b3v2(era));
         }
         if era == Era::Conway {
             // the same spend with the Conway map encoding of the redeemers
